@@ -309,10 +309,13 @@ def run(ctx):
                 hi = at + 1
                 while hi < len(lines) and '"ev":"reset"' not in lines[hi]:
                     hi += 1
-                ctx.report("C07 ack: recorded commit protocol rejected by DistFramerTrace",
-                           "recorded commit protocol rejected by DistFramerTrace.tla: no behaviour of the specification explains event %d: %s "
-                           "(a Commit returned before every involved peer leaseholder had answered that commit)" % (
-                               at - lo, lines[at] if at < len(lines) else "?"),
+                evt = lines[at] if at < len(lines) else "?"
+                why = ("a Commit returned before every involved peer leaseholder had answered that commit" if '"commit.ret"' in evt else
+                       "a Sync Write returned before every leaseholder had processed it" if '"write.ret"' in evt else
+                       "a peer received a request the gateway's calls do not explain (or did not receive one they require)")
+                ctx.report("C07 ack: recorded writer protocol rejected by DistFramerTrace (%s)" % (json.loads(evt).get("ev") if evt != "?" else "?"),
+                           "recorded writer protocol rejected by DistFramerTrace.tla: no behaviour of the specification explains event %d: %s (%s)" % (
+                               at - lo, evt, why),
                            {"trace": lines[lo:hi], "unexplained_event_index": at - lo, "kind": "trace"})
     if soft and not ctx.violations:
         raise vlib.Inconclusive("%d replayed scripts hung / diverged from the model's outcome classes / did not reproduce: %s" % (
@@ -321,7 +324,7 @@ def run(ctx):
     need = ["iter_reads", "store_reads", "ack_checks", "commits_with_slow_peer", "peer_commit_responses", "failed_opens",
             "dataonly_writes", "free_channel_frames", "remote_only_writes", "mixed_local_remote_writes", "partial_frames"]
     missing = [k for k in need if stats.get(k, 0) == 0]
-    if missing:
+    if missing and not ctx.violations:
         raise vlib.Inconclusive("vacuous run, never exercised: %s (%s)" % (missing, stats))
     cov = {
         "states": states, "transitions": trans,
